@@ -116,6 +116,7 @@ def env():
 
 
 UNDEF = {"$undefined": True}
+TOTAL = {"size": {1}, "default": {1, 2}}  # filter -> number of positional values (left value included) for which it is total
 
 
 def realise(v: Any, e) -> Any:
@@ -201,6 +202,11 @@ def judge(ctx: core.Ctx, case: dict[str, Any]) -> None:
     if not o.ok:
         if not o.is_liquid_error:
             ctx.count("non_liquid_error_forwarded_to_C02")
+        elif name in TOTAL and len(args) in TOTAL[name] and not kwargs:
+            # "size returns the length of sized values and 0 otherwise", "default returns its argument exactly for nil, false, undefined and
+            # empty values": these two are defined for every left value, so an error is not an open cell
+            ctx.evaluations += 1
+            ctx.violation(f"contract:{sig_of(name, args)}:raises-{o.err_class}", f"{name} raised {o.err_class} for args={case['args']!r:.200} ({case.get('via', 'direct')}); it is defined for every input")
         else:
             ctx.count("liquid_error_not_judged")
         return
